@@ -522,3 +522,128 @@ def nontrivial(line, ans):
             if st != "bot" and int(t[2]) < len(st) and st[int(t[2])] not in (None, (None, None)):
                 return True
     return False
+
+
+# ------------------------------------------------------------------ cell-algebra unit stream
+
+CELLS_CORPUS = [
+    # overlap / symbolic overlap of single cells, removed cells
+    "cells ; covl 0 4 0 0 4 ; covl 0 4 0 4 4 ; covl 0 4 0 3 4 ; covl 0 4 1 0 4 ; covl 4 4 0 0 5 ; covl 8 1 0 8 1",
+    "cells ; csym 4 4 0 0 8 4 ; csym 4 4 0 8 12 4 ; csym 4 4 1 0 8 4 ; csym 0 16 0 4 4 4 ; csym 4 4 0 -oo +oo 4 ; csym 4 4 0 5 6 1",
+    # the backward scan of get_overlap_cells stops at the first offset without overlap
+    "cells ; mk 0 0 16 ; mk 0 4 4 ; ov 0 8 4 ; ov 0 4 4 ; ov 0 0 16 ; ov 0 2 4",
+    "cells ; mk 0 0 4 ; mk 0 4 4 ; mk 0 8 4 ; ov 0 4 4 ; ov 0 2 4 ; ov 0 6 8 ; remove 0 4 4 ; ov 0 2 8 ; mk 0 4 4 ; all 0",
+    # several sizes at one offset: the largest decides for the symbolic query
+    "cells ; mk 0 4 1 ; mk 0 4 8 ; mk 0 4 4 ; sym 0 10 10 1 ; sym 0 5 5 1 ; remove 0 4 8 ; sym 0 10 10 1 ; sym 0 4 4 1",
+    # join / meet / leq of offset maps
+    "cells ; mk 0 0 4 ; mk 0 4 4 ; mk 1 4 4 ; mk 1 4 8 ; mk 1 8 4 ; leq 0 1 ; leq 1 0 ; join 0 0 1 ; leq 1 0 ; clear 1 ; mk 1 4 2 ; meet 0 0 1 ; leq 0 1",
+    # can_be_smashed and the coverage test
+    "cells ; smash 0 4 1 ; mk 0 4 4 ; mk 0 12 4 ; smash 0 4 1 ; smash 0 4 0 ; mk 0 0 4 ; smash 0 4 0 ; mk 0 6 4 ; smash 0 4 1 ; smash 0 2 1",
+    "cells ; mk 0 4 4 ; mk 0 8 4 ; cover 0 4 8 4 ; cover 0 4 12 4 ; cover 0 0 8 4 ; cover 0 5 7 4 ; cover 0 -oo 8 4 ; cover 0 -4 8 4 ; cover 0 6 8 4",
+    # decisions: constant index with/without room, symbolic index smash / kill, smashed arrays
+    "cells ; mk 0 0 4 ; mk 0 4 4 ; dstore 0 1 1 64 64 0 0 4 4 4 ; dstore 0 1 1 64 64 0 0 8 8 4 ; dstore 0 1 1 64 64 0 0 0 4 4 ; dstore 0 0 0 64 64 0 0 0 4 4 ; dstore 0 1 1 1 2 0 0 8 8 4 ; dstore 0 1 1 2 2 0 0 8 8 4",
+    "cells ; mk 0 4 4 ; mk 0 8 4 ; dstore 0 1 0 64 64 0 0 0 8 4 ; dstore 0 1 1 64 64 0 0 0 8 4 ; dstore 0 1 1 64 64 1 4 0 8 4 ; dstore 0 1 1 64 64 1 8 0 8 4 ; dstore 0 1 1 64 64 1 T 0 8 4",
+    "cells ; mk 0 4 4 ; mk 0 8 4 ; dload 0 1 1 64 64 0 0 4 8 4 ; dload 0 1 1 64 64 0 0 0 8 4 ; dload 0 1 1 64 64 0 0 12 12 4 ; dload 0 1 1 64 64 0 0 6 6 4 ; dload 0 0 0 64 64 0 0 4 8 4 ; dload 0 1 1 64 64 1 4 4 8 4",
+    # join of array states: one side smashed
+    "cells ; mk 0 0 4 ; mk 0 4 4 ; asjoin 1 64 64 0 0 1 4 2 0 ; asjoin 1 64 64 0 0 1 4 1 0 ; asjoin 1 1 64 0 0 1 4 2 0 ; asjoin 1 64 64 0 0 1 T 2 0 ; asjoin 1 64 64 0 0 0 0 2 0 ; asjoin 1 64 64 1 4 1 8 0 0",
+    "cells ; mk 0 4 4 ; mk 1 0 4 ; asjoin 0 64 64 0 0 1 4 1 0 ; asjoin 1 64 64 0 0 1 4 1 0 ; asjoin 1 64 64 1 4 0 0 0 1 ; asmeet 1 64 64 0 0 0 0 1 1 ; asmeet 1 64 64 1 4 1 4 0 0",
+    "cells ; mk 0 4 4 ; asmeet 1 64 64 1 4 0 0 0 0",
+]
+
+
+def gen_cells_line(rng):
+    uni = rng.random() < 0.6
+    sz0 = rng.choice([1, 2, 4, 8])
+    offs = [sz0 * i for i in range(8)] if uni else list(range(0, 24))
+    szs = [sz0] if uni else [1, 2, 4, 8, 16]
+    ops = []
+    made = [[], []]
+    dirty = [False, False]     # a cell of the map has been marked as removed
+
+    def cellspec():
+        return rng.choice(offs), rng.choice(szs)
+
+    def ivl():
+        x = rng.random()
+        if x < 0.1:
+            return "-oo", "+oo"
+        lo = max(0, rng.choice(offs + [0, 0]) + rng.choice([0, 0, 0, 1, -1]) * (0 if uni else 1))
+        hi = lo + rng.choice([0, 0, sz0, 2 * sz0, 3, 7, 16])
+        if x < 0.15:
+            return "-oo", str(hi)
+        if x < 0.2:
+            return str(lo), "+oo"
+        return str(lo), str(hi)
+
+    def prm():
+        m = rng.choice([1, 2, 3, 4, 64])
+        c = rng.choice([x for x in [1, 2, 3, 4, 64] if x <= m])
+        return "%d %d %d %d" % (rng.randint(0, 1), rng.randint(0, 1), c, m)
+
+    for _ in range(rng.randint(4, 18)):
+        w = rng.randrange(2)
+        pick = rng.choices(["mk", "remove", "erase", "ov", "sym", "covl", "csym", "join", "meet", "leq", "smash",
+                            "cover", "dstore", "dload", "asjoin", "all", "ncells"],
+                           [10, 3, 2, 6, 5, 2, 2, 2, 1.5, 2, 3, 3, 6, 5, 3, 1, 1])[0]
+        if pick == "mk":
+            o, z = cellspec(); made[w].append((o, z))
+            ops.append("mk %d %d %d" % (w, o, z))
+        elif pick in ("remove", "erase"):
+            o, z = rng.choice(made[w]) if made[w] and rng.random() < 0.8 else cellspec()
+            ops.append("%s %d %d %d" % (pick, w, o, z))
+            if pick == "remove":
+                dirty[w] = True
+        elif pick == "ov":
+            o, z = rng.choice(made[w]) if made[w] and rng.random() < 0.4 else cellspec()
+            ops.append("ov %d %d %d" % (w, o, z))
+        elif pick == "sym":
+            lo, hi = ivl()
+            ops.append("sym %d %s %s %d" % (w, lo, hi, rng.choice(szs)))
+        elif pick == "covl":
+            o, z = cellspec(); o2, z2 = cellspec()
+            ops.append("covl %d %d %d %d %d" % (o, z, rng.randint(0, 1), o2, z2))
+        elif pick == "csym":
+            o, z = cellspec(); lo, hi = ivl()
+            ops.append("csym %d %d %d %s %s %d" % (o, z, int(rng.random() < 0.2), lo, hi, rng.choice(szs)))
+        elif pick in ("join", "meet"):
+            # which removed flag survives when the two sides disagree depends on the sharing
+            # optimisation of patricia merge: not modelled, not generated
+            if dirty[0] or dirty[1]:
+                continue
+            ops.append("%s %d %d %d" % (pick, w, rng.randrange(2), rng.randrange(2)))
+            made[w] = made[0] + made[1]
+        elif pick == "leq":
+            ops.append("leq %d %d" % (rng.randrange(2), rng.randrange(2)))
+        elif pick == "smash":
+            ops.append("smash %d %d %d" % (w, rng.choice(szs), rng.randint(0, 1)))
+        elif pick == "cover":
+            lo, hi = ivl()
+            ops.append("cover %d %s %s %d" % (w, lo, hi, rng.choice(szs)))
+        elif pick in ("dstore", "dload"):
+            lo, hi = ivl()
+            sm = int(rng.random() < 0.2)
+            es = rng.choice([str(sz0), str(sz0), "T", "8"]) if sm else "0"
+            ops.append("%s %d %s %d %s %s %s %d" % (pick, w, prm(), sm, es, lo, hi, rng.choice(szs)))
+        elif pick == "asjoin":
+            if dirty[0] or dirty[1]:
+                continue
+            sx, sy = rng.choice([(0, 1), (1, 0), (0, 0), (1, 1)])
+            ex = rng.choice([str(sz0), "T", "8"]) if sx else "0"
+            ey = rng.choice([str(sz0), "T", "8"]) if sy else "0"
+            m = rng.choice([1, 2, 4, 64]); c = rng.choice([x for x in [1, 2, 4, 64] if x <= m])
+            ops.append("asjoin %d %d %d %d %s %d %s %d %d" % (rng.randint(0, 1), c, m, sx, ex, sy, ey,
+                                                             rng.choice([0, 1, 2, 99]), rng.choice([0, 1, 2, 99])))
+        elif pick in ("all", "ncells"):
+            ops.append("%s %d" % (pick, w))
+    return "cells ; " + " ; ".join(ops)
+
+
+def gen_cells(seed, tier, n=None):
+    rng = random.Random(seed + 77)
+    n = n if n is not None else (600 if tier == "quick" else 30000)
+    return list(CELLS_CORPUS) + [gen_cells_line(rng) for _ in range(n)]
+
+
+def cells_nontrivial(line, ans):
+    """rule: some query of the line returned a non-empty cell set or a decision changed the shape"""
+    return bool(re.search(r"\{\d", ans))
